@@ -116,12 +116,13 @@ func init() {
 // directedManyChildMaps: an array holding 300 empty child maps at slab size 8192 - a valid in-memory
 // state whose commit needs more than 256 inlined map extra-data entries in one slab (recorded finding).
 // directedManyCompactMaps: the same with composite-typed children whose field sets differ pairwise, so that every
-// child needs a compact-map entry of its own in the shared section (the other encoder path with a one-byte index).
+// child needs a compact-map entry of its own in the shared section (the other encoder path with a one-byte index);
+// at the largest slab size, so that one data slab holds more than 256 of them.
 func directedManyCompactMaps() *Trace {
-	tr := &Trace{Property: "C03", Config: Config{Profile: "crash", Slab: 8192, CollLimit: 255, OracleStride: 100000, MaxSteps: 400}}
+	tr := &Trace{Property: "C03", Config: Config{Profile: "crash", Slab: 32768, CollLimit: 255, OracleStride: 100000, MaxSteps: 500}}
 	t := TypeInfo{N: 0}
 	tr.Steps = append(tr.Steps, Step{Op: "new", CID: 1, Sub: "arr", Owner: 1, T: &t})
-	for i := 0; i < 300; i++ {
+	for i := 0; i < 420; i++ {
 		tr.Steps = append(tr.Steps, Step{Op: "a.append", C: 1, V: &VSpec{Map: &CSpec{CID: 10 + i, T: TypeInfo{Comp: true, N: 1},
 			K: []VSpec{{S: &[2]int{7000 + i, 6}}}, V: []VSpec{{U: u64p(uint64(i))}}}}})
 	}
